@@ -51,6 +51,7 @@ class Typed(Event):
     s: str
     b: bool = False
     opt: Optional[str] = None
+    optd: Optional[str] = "dflt"  # nullable with a non-None default: an explicit None must survive
     nums: list[int] = Field(default_factory=list)
     mapping: dict[str, float] = Field(default_factory=dict)
 
